@@ -1,7 +1,7 @@
 """C11: indexing gradients scatter exactly and combine with dense ones in any order."""
 from harness import common as C
 
-FILES = ["Containers/VSpace.v", "Containers/VSpaceProof.v", "Array/Index.v", "Array/Run01.v", "Array/Run11.v", "Props/C11.v"]
+FILES = ["Containers/VSpace.v", "Containers/VSpaceProof.v", "Array/Index.v", "Array/BasicIndex.v", "Array/BasicIndexProof.v", "Array/Run01.v", "Array/Run11.v", "Props/C11.v"]
 RULE = ("index expressions from a grammar (ints, negative ints, slices with steps incl. negative, ellipsis, newaxis, "
         "integer arrays and lists with repeated entries, boolean masks, mixtures) on arrays of rank 0..4; the flat "
         "positions read are taken from NumPy on a position-labelled array; VJP/JVP compared with the model's "
@@ -11,7 +11,7 @@ RULE = ("index expressions from a grammar (ints, negative ints, slices with step
 TRUST = ["NumPy's resolution of an index expression to source positions is taken from NumPy itself"]
 ASSUMPTIONS = ["integer data: float64 arithmetic exact"]
 IMPORTS = ("From Coq Require Import List ZArith.\nImport ListNotations.\n"
-           "From AG Require Import VSpace Index Run01 Run11.\nLocal Open Scope Z_scope.\n")
+           "From AG Require Import VSpace Index BasicIndex Run01 Run11.\nLocal Open Scope Z_scope.\n")
 
 
 def nl(l):
@@ -25,6 +25,21 @@ def zl(l):
 def term(c):
     return "{| x_n := %s; x_sigma := %s; x_g := %s; x_v := %s; x_vjp := %s; x_jvp := %s; x_ok := %s |}" % (
         C.cnat(c["n"]), nl(c["sigma"]), zl(c["g"]), zl(c["v"]), zl(c["vjp"]), zl(c["jvp"]), C.cbool(c["ok"]))
+
+
+def termb(c):
+    oz = lambda v: "None" if v is None else "(Some %s)" % C.cz(v)  # noqa: E731
+
+    def it(p):
+        if p[0] == "ell":
+            return "BEll"
+        if p[0] == "new":
+            return "BNew"
+        if p[0] == "int":
+            return "(BInt %s)" % C.cz(p[1])
+        return "(BSlice %s %s %s)" % (oz(p[1]), oz(p[2]), C.cz(p[3]))
+    return "{| b_dims := %s; b_items := %s; b_sigma := %s |}" % (C.clist([C.cnat(d) for d in c["shape"]]), C.clist([it(p) for p in c["basic"]]),
+                                                              C.clist([C.cnat(i) for i in c["sigma"]]))
 
 
 def termp(c):
@@ -42,6 +57,8 @@ def explore(res, tag, seed, n, n_progs):
     res.count("malformed-both-raise", out["malformed"]["both_raise"])
     codes = C.coq_eval(tag, IMPORTS, "", [term(c) for c in out["cases"]], "check11", shard=250)
     codesp = C.coq_eval(tag + "p", IMPORTS, "", [termp(c) for c in out["progs"]], "check11p", shard=250)
+    basics = [c for c in out["cases"] if c.get("basic") is not None]
+    codesb = C.coq_eval(tag + "b", IMPORTS, "", [termb(c) for c in basics], "check11b", shard=250) if basics else []
     res.add_cases(len(out["cases"]) + len(out["progs"]) + out["malformed"]["n"],
                   [(str(c["shape"]), c["index"]) for c in out["cases"]] + [str(c["uses"]) for c in out["progs"]],
                   [{k: c[k] for k in ("shape", "index", "sigma", "g", "vjp")} for c in out["cases"][:2]] + out["progs"][:1])
@@ -49,7 +66,9 @@ def explore(res, tag, seed, n, n_progs):
     bad = sorted([c for c, k in zip(out["cases"], codes) if k == 2] + [c for c, k in zip(out["progs"], codesp) if k == 2], key=key) \
         + out["malformed"]["bad"] + out.get("nested", {}).get("bad", [])
     res.add_cases(out.get("nested", {}).get("n", 0), [])
-    tie = sorted([c for c, k in zip(out["cases"], codes) if k == 1] + [c for c, k in zip(out["progs"], codesp) if k == 1], key=key)
+    tie = sorted([c for c, k in zip(out["cases"], codes) if k == 1] + [c for c, k in zip(out["progs"], codesp) if k == 1]
+                 + [dict(c, what="the model of NumPy's basic indexing computes other positions than NumPy reads") for c, k in zip(basics, codesb) if k != 0], key=key)
+    res.count("basic-index-model-vs-numpy", len(basics))
     return bad, tie, None
 
 
